@@ -26,7 +26,7 @@ from .ops import Unsupported, truth, b2v, i2v, zint, zbool, zseq, to_val, to_vl,
 # ---------------------------------------------------------------------------------------------
 import re
 INTERNAL_TRACE = re.compile(r"\b(n_callees|callee_arg|callee_result|n_events|n_ev|all_calls_from_callee|all_getattr_on|"
-                            r"n_requests|request_kind|request_conn|request_args|request_result|n_ops|op_name|op_target|op_args|op_result|n_local|ev_val|ev_raised|ev_arg|shutdown_attempted_on|call_returned|called_and_returned|called_and_returned_attr|raised_by_attr|n_attr_reads)\b")
+                            r"n_requests|request_kind|request_conn|request_args|request_result|n_ops|op_name|op_target|op_args|op_result|n_local|ev_val|ev_obj|ev_raised|ev_arg|shutdown_attempted_on|call_returned|called_and_returned|called_and_returned_attr|raised_by_attr|n_attr_reads)\b")
 
 
 class CheckerError(Exception):
